@@ -611,7 +611,7 @@ func genTreeProp(prop string) genFunc {
 			}
 			var indents []int
 			if prop == "C16" {
-				indents = []int{pickOf(r, []int{-1, 11, -5, 100}), 0, pickOf(r, []int{1, 2, 3, 4}), pickOf(r, []int{5, 7, 10, 10})}
+				indents = []int{pickOf(r, []int{-1, 11, -5, 100, 12, 255, 256, 261, 266, 512, 65536, 65541, -256, -250, -65536}), 0, pickOf(r, []int{1, 2, 3, 4}), pickOf(r, []int{5, 7, 10, 10})}
 			}
 			out.emit(treeCase(prop, v, indents, nil))
 		}
@@ -981,7 +981,7 @@ func genC20(r *R, n int, tier string, out *Out) {
 		var toks []string
 		var build func(depth int, obj bool)
 		scalar := func() string {
-			return pickOf(r, []string{"1", "true", "null", `"s"`, "2.5", `"a\nb"`, "-7", `"x y"`, "\"ab\ncd\"", "\"l1\nl2\nl3\"", "\"\nx\"", "\"tab\there\""})
+			return pickOf(r, []string{"1", "true", "null", `"s"`, "2.5", `"a\nb"`, "-7", `"x y"`, "\"ab\ncd\"", "\"l1\nl2\nl3\"", "\"\nx\"", "\"tab\there\"", "\"a\\\nb\"", "\"\\\n\""})
 		}
 		build = func(depth int, obj bool) {
 			if obj {
@@ -991,7 +991,17 @@ func genC20(r *R, n int, tier string, out *Out) {
 					if j > 0 {
 						toks = append(toks, ",", nl())
 					}
-					toks = append(toks, fmt.Sprintf(`"k%d"`, j), nl(), ":", nl())
+					// keys: mostly plain; sometimes with a raw newline, an escape, or a backslash directly followed by a raw newline
+					key := fmt.Sprintf(`"k%d"`, j)
+					switch r.Intn(8) {
+					case 0:
+						key = fmt.Sprintf("\"k%d\nx\"", j)
+					case 1:
+						key = fmt.Sprintf("\"k%d\\\nx\"", j)
+					case 2:
+						key = fmt.Sprintf(`"k%d\"q\\"`, j)
+					}
+					toks = append(toks, key, nl(), ":", nl())
 					if depth > 0 && r.chance(0.45) {
 						build(depth-1, r.chance(0.5))
 					} else {
